@@ -764,3 +764,35 @@ impl World {
         }
     }
 }
+
+/// Turn an ordinary bank into a staked-collateral bank by forging what `add_bank_permissionless`
+/// would have produced: asset tag STAKED, oracle setup StakedWithPythPush with the bank's own mint
+/// as the LST mint and a forged native stake account as the SOL pool.
+pub fn make_staked_bank(s: &mut Store, w: &World, b: usize, pool_stake_lamports: u64) {
+    let pool = key(&format!("stakepool:{}", w.banks[b].label));
+    // StakeStateV2::Stake(meta, stake, flags), borsh layout
+    let mut d: Vec<u8> = vec![];
+    d.extend_from_slice(&2u32.to_le_bytes());
+    d.extend_from_slice(&2_282_880u64.to_le_bytes()); // rent exempt reserve
+    d.extend_from_slice(&[1u8; 32]); // staker
+    d.extend_from_slice(&[1u8; 32]); // withdrawer
+    d.extend_from_slice(&0i64.to_le_bytes()); // lockup ts
+    d.extend_from_slice(&0u64.to_le_bytes()); // lockup epoch
+    d.extend_from_slice(&[0u8; 32]); // custodian
+    d.extend_from_slice(&[2u8; 32]); // voter
+    d.extend_from_slice(&pool_stake_lamports.to_le_bytes()); // delegation.stake
+    d.extend_from_slice(&0u64.to_le_bytes()); // activation epoch
+    d.extend_from_slice(&u64::MAX.to_le_bytes()); // deactivation epoch
+    d.extend_from_slice(&0.25f64.to_le_bytes()); // warmup cooldown rate
+    d.extend_from_slice(&0u64.to_le_bytes()); // credits observed
+    d.push(0); // flags
+    d.resize(200, 0);
+    s.set(pool, Acct::new(pool_stake_lamports + 2_282_880, d, marginfi::constants::NATIVE_STAKE_ID));
+    let mint = w.banks[b].mint;
+    edit_bank(s, &w.banks[b].key, |bk| {
+        bk.config.asset_tag = 2;
+        bk.config.oracle_setup = OracleSetup::StakedWithPythPush;
+        bk.config.oracle_keys[1] = mint;
+        bk.config.oracle_keys[2] = pool;
+    });
+}
